@@ -107,7 +107,7 @@ RealGrid == {-4, 0, 1, 2, 4, 6, 16}          \* quarters: -1, 0, .25, .5, 1, 1.5
 ProbGrid == {-1, 0, 1, 2, 3, 4, 5}           \* quarters: -.25 .. 1.25
 Grid(k, i) == CASE k = "ChiSquared" -> {0, 1, 2, 5, 8}
                 [] k = "DiscreteUniform" -> {-3, 0, 2, 5}
-                [] k = "Binomial" /\ i = 1 -> {0, 1, 10, 40, 100}     \* n min(p, 1-p) on both sides of 30 (inversion / BTPE)
+                [] k = "Binomial" /\ i = 1 -> {0, 1, 10, 40, 100, 200}     \* n min(p, 1-p) on both sides of 30 (inversion / BTPE); three BTPE states sharing n or p
                 [] k = "Poisson" -> RealGrid \cup {44, 640}          \* rates 11 and 160: the three sampler regimes (< 10, >= 10, >= 150)
                 [] k = "Binomial" /\ i = 2 -> ProbGrid
                 [] k = "Bernoulli" -> ProbGrid
